@@ -13,7 +13,7 @@ from ..world import classify
 
 ID = 'C18'
 LEVEL = 'exploration'
-TIERS = {'quick': 5000, 'thorough': 200000}
+TIERS = {'quick': 12000, 'thorough': 500000}
 RULE = ('seeded histories of 4-20 calls on one SqParser: list_names on (a) token soups built by construction from '
         'plain names (ASCII, Unicode, keyword-prefixed/suffixed), %...% names (spaces, dots, operators, keywords, quotes), '
         'keywords, numbers, strings / raw strings / comments containing identifier-like text, operators and brackets '
